@@ -47,6 +47,10 @@ EXECUTABLE = ['prog.sh', 'hd/prog.sh']
 INC_NAME = 'inc.xly'
 
 WORDS = ['a', 'b', 'c', 'hi', 'abc', 'x', 'é', 'A1', 'b-c', 'ü✓']
+# words of an instruction description ("a free text"): also what a careless rendering of the report could take for
+# markup of its own (format fields, % directives, escapes, symbol references)
+DESC_WORDS = WORDS + ['{', '}', '{}', '{0}', '{x}', '${PATH}', '%s', '%d', '%(a)s', '{{', '}}', '\\', '@[X]@', "it's",
+                      '"q', '<b>', '&amp;', '$x', 'é{', '{delimiter}', '%', '{0', 'a}b', '\\n', '{x!r}', '{:>3}']
 INTS_GOOD = ['0', '1', '2', '3', '-1', '10', '1+1', '2*3', '(1+2)', '"1 + 1"', "'3'", '7', '0x10', '-0']
 DEPTH_GOOD = ['0', '1', '2', '1+1', '"1"', '10**100']
 REGEX_GOOD = ['a', 'b', "'a.c'", '"b+"', "'^x$'", "'(a)(b)?'", "'[ab]'", "'a|c'", "'\\w+'", 'hi', "'^$'"]
@@ -1091,14 +1095,14 @@ class G:
         self.begin()
         k = self.n(3)
         if k == 0:
-            self.t('`' + self.word() + '`', 'desc')
+            self.t('`' + self.pick(DESC_WORDS) + '`', 'desc')
         elif k == 1:
-            self.t('`' + self.word(), 'desc')
-            self.t(self.word() + '`', 'desc')
+            self.t('`' + self.pick(DESC_WORDS), 'desc')
+            self.t(self.pick(DESC_WORDS) + '`', 'desc')
         else:
-            self.t('`' + self.word(), 'desc')
+            self.t('`' + self.pick(DESC_WORDS), 'desc')
             self.nl()
-            self.t(self.word() + '`', 'desc')
+            self.t(self.pick(DESC_WORDS) + '`', 'desc')
         self.end(ph, '(description)')
 
     def header(self, ph):
@@ -1217,9 +1221,11 @@ def build_document_g(g):
     for ph in ['before-assert', 'assert', 'cleanup']:
         lo = 1 if ph == 'assert' and not focus else 0
         if ph == focus_ph:
+            if g.maybe(3):
+                g.description(ph)
             focused_instruction(g, ph)
         for _ in range(lo + (g.n(2) if focus else g.n(3))):
-            if g.maybe(8):
+            if g.maybe(6):
                 g.description(ph)
             g.instruction(ph)
         sections[ph], g.elems = g.elems, []
